@@ -6,7 +6,7 @@ from analysis.facts import norm_path
 from analysis.sym import sym, show_in, nosite, peel, core, walk, ret_values, args_of, guards_at, atoms_at, \
     variant_facts_at, cmp_facts_at, init_value, edge_guards, symbolizer, simplify, loop_source, defs_of, var_defs, conj_terms
 from analysis.pat import match, Call, Cap, ANY, Pred, Const, has, chain_names
-from rules.common import closure_of, panic_sites
+from rules.common import closure_of, panic_sites, local_defs
 
 M = 'metrics::'
 ENTRIES = ('metrics::spelling_correction_f1', 'metrics::whitespace_correction_f1', 'metrics::binary_f1', 'metrics::accuracy',
@@ -188,11 +188,32 @@ def r2(ctx):
         raise AnchorMissing('metric entry points (found %d of %d)' % (len(ents), len(ENTRIES)))
     rb = callgraph.reachable(ctx.facts, ents)
     found = {}
+    def range_discharged(b, t):
+        """`cs.get(i).unwrap()` / `cs.get_char(i).expect(..)` where i runs over 0..cs.len() of the same CharString: get() is Some for every n < len
+        (R-C16-10), so the site cannot fire"""
+        from rules.common import range_bounds
+        from analysis.sym import loop_source
+        if not t.args:
+            return False
+        x = peel(sym(b, t.args[0]))
+        if not (x[0] == 'call' and re.search(r'CharString::(get|get_char)$', x[1]) and len(x[2]) == 2):
+            return False
+        cs_, i_ = nosite(core(x[2][0])), nosite(core(x[2][1]))
+        for nx in b.calls(r'::next$'):
+            if nosite(core(('unwrap', sym(b, nx.dest)))) != i_:
+                continue
+            rb_ = range_bounds(loop_source(b, nx))
+            if rb_ is not None and rb_[0] == 0 and not isinstance(rb_[1], int) and match(core(rb_[1]), Call('CharString::len', Pred(lambda u: nosite(core(u)) == cs_))):
+                return True
+        return False
     for b in rb:
         ctx.stats['bodies_inspected'].add(b.path)
         for t, d in panic_sites(b):
             k = _site_kind(t, d)
             if k is None:
+                continue
+            if k in ('Option::unwrap', 'Option::expect') and range_discharged(b, t):
+                ctx.ok(b, '`%s` at line %d is discharged: the position runs over 0..len() of the same CharString' % (k, t.span['line']), t.span)
                 continue
             found.setdefault((norm_path(b.path), k), []).append((b, t))
     for key, sites in sorted(found.items()):
@@ -254,7 +275,8 @@ def r3(ctx):
                 while cc[0] == 'un' and cc[1] == 'Not':
                     cc, pol = core(cc[2]), not pol
                 if cc[0] == 'call' and cc[1].endswith('HashSet::contains') and len(cc[2]) == 2 and core(cc[2][1]) == ITEM:
-                    return ('intersection' if pol else 'difference'), core(segs[0].src), core(cc[2][0])
+                    from analysis.seq import unhash
+                    return ('intersection' if pol else 'difference'), core(unhash(segs[0].src)), core(cc[2][0])   # a count does not depend on the order
             return None
         if c[0] == 'bin' and c[1] == 'Sub' and depth < 2:
             a = core(c[2])
@@ -366,6 +388,42 @@ def r3(ctx):
         ok = table.get(0) == {'p': True, 't': True} and table.get(1) == {'p': True, 't': False} and table.get(2) == {'p': False, 't': True}
         ctx.require(ok, clo[0], 'confusion-table', 'binary counts: tp (1,1), fp (1,0), fn (0,1)', 'table: %s' % table)
     rvc = ret_values(c)
+    if not clo and len(rvc) == 1 and peel(rvc[0][0])[0] == 'agg' and len(peel(rvc[0][0])[3]) == 3 and cfg.loops(c):
+        # the same count written as a loop over zip(predictions, targets) with three counters
+        from analysis.sym import loop_source
+        nxs = [t for t in c.calls(r'::next$')]
+        src = core(loop_source(c, nxs[0])) if len(nxs) == 1 else ()
+        okz = bool(src) and match(src, Call('Iterator::zip', ('arg', 1, ANY), ('arg', 2, ANY)))
+        item = nosite(core(('unwrap', sym(c, nxs[0].dest)))) if nxs else None
+        table = {}
+        from rules.common import iteration_table
+        cnts = {}
+        for pos, comp in enumerate(peel(rvc[0][0])[3]):
+            cc = core(comp)
+            if cc[0] == 'var' and len(cc) > 2:
+                cnts[pos] = cc[2]
+        rows = iteration_table(c, cfg.loops(c)[0], {str(k): v for k, v in cnts.items()}) or []
+        for row in rows:
+            facts_ = {}
+            bad_ = False
+            for t_, pol_ in row['atoms']:
+                ct = nosite(core(t_))
+                key = 'p' if ct == ('field', item, 0) else ('t' if ct == ('field', item, 1) else None)
+                if key:
+                    if key in facts_ and facts_[key] != pol_:
+                        bad_ = True       # the same flag tested both ways: not a path
+                    facts_[key] = pol_
+            if bad_:
+                continue
+            inc = [int(k) for k, d_ in row['delta'].items() if d_ == 1]
+            if len(inc) == 1:
+                table.setdefault(inc[0], [])
+                if facts_ not in table[inc[0]]:
+                    table[inc[0]].append(facts_)
+        table = {k: (v[0] if len(v) == 1 else v) for k, v in table.items()}
+        ok = okz and table.get(0) == {'p': True, 't': True} and table.get(1) == {'p': True, 't': False} and table.get(2) == {'p': False, 't': True}
+        ctx.require(ok, c, 'confusion-table', 'binary counts: tp (1,1), fp (1,0), fn (0,1) over zip(predictions, targets)', 'source %s, table: %s' % (show_in(c, src)[:60] if src else '?', table))
+        return
     ok = len(rvc) == 1 and match(core(rvc[0][0]), Call('fold', Call('Iterator::zip', ('arg', 1, ANY), ('arg', 2, ANY)), ANY, ANY))
     ctx.require(ok, c, 'binary-zip', '_count_tp_fp_fn folds over zip(predictions, targets)', None)
 
@@ -615,6 +673,11 @@ def r7(ctx):
     # ... and the recurrence itself, with its whitespace restriction (R-C12-2 re-evaluated): _group_words reads splits and merges of words off
     # edit::operations(.., spaces_insert_delete_only = true) and panics on its closing assertion when a space was Replaced instead
     c12.r2(ctx)
+    # every metric cleans its inputs first (text::clean, R-C11-1 / R-C11-2 re-evaluated): a cleaner that hands "already clean looking" text back
+    # untouched lets a tab or newline through, and a sequence equal to its target after cleaning gets a distance > 0
+    from rules import c11
+    c11.r1(ctx)
+    c11.r2(ctx)
 
 
 @rule('C13', 'R-C13-8', 'T15 TYPE (character positions are not byte offsets)',
@@ -655,3 +718,33 @@ def r8(ctx):
                         ctx.fail(b, 'raw-index|' + fn.rsplit('::', 1)[-1], '%s indexes the bytes of a text (`%s`, line %d): the positions in this function are Character indices, '
                                  'not byte offsets' % (fn, show_in(b, x)[:60], st.span['line']), st.span)
     ctx.ok(None, 'no raw text indexing in the %d metric helper bodies' % n)
+
+
+@rule('C13', 'R-C13-9', 'T4 GUARD (equal numbers of sequences)',
+      '_correction_f1 indexes the three lists with one position: it is reached only when inputs, predictions and targets have the SAME number of sequences '
+      '(both equalities on the way to the indexed pass), otherwise Err -- with `&&` between two inequalities a single odd list slips through and the '
+      'indexing panics or silently truncates')
+def r9(ctx):
+    cf = ctx.body(M + '_correction_f1')
+    par = [t for t in cf.calls(r'into_par_iter$|IntoIterator::into_iter$|Iterator::map$') if has(sym(cf, t.args[0]), ('agg', 'adt', Pred(lambda n: n.endswith('Range::Range')), ANY))]
+    if not par:
+        raise AnchorMissing('_correction_f1: the pass over 0..input_sequences.len()')
+    site = par[0]
+    # facts at the pass: which pairs of lengths are known equal
+    LENOF = lambda k: Pred(lambda u: core(u)[0] == 'call' and core(u)[1].rsplit('::', 1)[-1] == 'len' and has(core(u), ('arg', k, ANY)))
+    eq = set()
+    for t_, pol_, g_ in atoms_at(cf, site.bb):
+        c_ = core(t_)
+        if c_[0] == 'bin' and ((c_[1] == 'Eq' and pol_ is True) or (c_[1] == 'Ne' and pol_ is False)):
+            ks = []
+            for side in (c_[2], c_[3]):
+                for k in (1, 2, 3):
+                    if match(side, LENOF(k)):
+                        ks.append(k)
+            if len(ks) == 2 and ks[0] != ks[1]:
+                eq.add(frozenset(ks))
+    # two equalities over the three lists connect them all
+    linked = len(eq) >= 2 and set().union(*eq) == {1, 2, 3}
+    ctx.require(linked, cf, 'all-lengths-equal', 'the indexed pass runs only when all three lists have the same length',
+                'the indexed pass of _correction_f1 is reached knowing only %s about the lengths: a list of another length is indexed out of bounds (panic) or cut short' % (
+                    [sorted(x) for x in eq] or 'nothing'), site.span)
